@@ -36,11 +36,10 @@ func unsetComplain(profile string) string {
 	}
 
 	flags := strings.Split(matches[1], ",")
-	idx := slices.Index(flags, "complain")
-	if idx == -1 {
+	if !slices.Contains(flags, "complain") {
 		return profile
 	}
-	flags = slices.Delete(flags, idx, idx+1)
+	flags = slices.DeleteFunc(flags, func(f string) bool { return f == "complain" })
 	strFlags := "{\n"
 	if len(flags) >= 1 {
 		strFlags = " flags=(" + strings.Join(flags, ",") + ") {\n"
